@@ -119,6 +119,59 @@ def rule_r2(chk, db, methods):
     chk.verdict(ok, "R2", "listing-sorted", b.loc(sorts[0][0]) if sorts else b.loc(bi), "ListObjectsV2 contents are not sorted by key after the last insertion")
 
 
+def rule_r2b(chk, db, methods):
+    """the prefix filter of the listing compares key text with prefix text (a key matches a prefix that ends in the middle of a path segment);
+    path-wise comparison (std::path::Path::starts_with / strip_prefix) matches whole components only"""
+    b = methods.get("list_objects_v2")
+    if b is None:
+        raise AnchorMissing("list_objects_v2 not found")
+    textual, pathwise = [], []
+    for bi, t in b.calls():
+        d = callee_def(t)
+        if short(d) not in ("starts_with", "strip_prefix") or len(t["args"]) < 2:
+            continue
+        sl = flow.backward(b, t["args"][1], at=bi)
+        if not any(f[1] == "prefix" and f[0].startswith("ListObjects") for f in sl.fields):
+            continue
+        if d.startswith("std::path::") or "::path::Path" in d:
+            pathwise.append(bi)
+        elif d.startswith("core::str") or d.startswith("alloc::str") or d.startswith("core::slice"):
+            textual.append(bi)
+    chk.verdict(bool(textual) and not pathwise, "R2", "prefix-filter-textual", b.loc((pathwise or textual or [0])[0]),
+                "the listing's prefix filter %s: a prefix that ends inside a path segment (`fo` for `foo/bar`) no longer matches"
+                % ("compares path components (std::path::Path::%s)" % short(callee_def(b.blocks[pathwise[0]]["term"])) if pathwise else
+                   "does not compare the key text with the requested prefix"))
+
+
+def rule_r6(chk, db, methods):
+    """the ETag a read returns is computed from the object's content (get_md5_sum / a digest of the file), not taken from a side record
+    that other writers of the object (copy, multipart completion, delete) do not maintain"""
+    n = 0
+    for name in ("get_object", "head_object"):
+        b = methods.get(name)
+        if b is None:
+            continue
+        for bi, si, st in b.stmts():
+            rv = st["rv"]
+            if rv["k"] != "agg" or not rv.get("adt", "").endswith("ObjectOutput"):
+                continue
+            m = dict(zip(rv.get("fields", []), rv["ops"]))
+            if "e_tag" not in m:
+                continue
+            sl = flow.backward(b, m["e_tag"], at=bi)
+            names = {short(callee_def(t)) for _, t, _ in sl.calls}
+            if not names - {"default"} and not sl.params:
+                continue        # no ETag reported
+            n += 1
+            from_content = bool(names & {"get_md5_sum", "finalize", "digest", "md5"})
+            side = sorted(names & {"load_internal_info", "load_metadata", "from_slice", "from_str", "from_reader"})
+            chk.verdict(from_content and not side, "R6", name + ".etag-from-content", b.loc(bi),
+                        "the ETag returned by %s %s: after the object is overwritten by an operation that does not maintain that record the read "
+                        "returns the new content with the old ETag" % (name, ("is read from a stored record (%s)" % ", ".join(side)) if side else
+                                                                        "is not computed from the object's content"))
+    chk.floor("R6", n, 1, "reads that report an ETag")
+
+
 def rule_r3(chk, db, methods):
     b = methods.get("get_object")
     if b is None:
@@ -210,6 +263,9 @@ def run(chk, db, tier):
     chk.rule("R3", "ranged read: seek position, content_length, content_range and the body bound derive from Range::check, not from raw Range fields")
     chk.guard("R1", rule_r1, db, roles, methods)
     chk.guard("R2", rule_r2, db, methods)
+    chk.guard("R2", rule_r2b, db, methods)
+    chk.rule("R6", "the ETag of a read is computed from the object's content, not from a stored side record")
+    chk.guard("R6", rule_r6, db, methods)
     chk.guard("R3", rule_r3, db, methods)
     chk.rule("R4", "ETag = MD5 of current content: get_md5_sum hashes the file at the object path on every path; reported ETags come from it or from the bytes just written")
     chk.guard("R4", rule_r4, db, methods)
